@@ -4,7 +4,7 @@
    HttpRule.try_parse_http_rule (body) / Method.client_method_name / transport_safe_name,
    uri_conv.convert_uri_fieldnames (_fix_field_path), api.py disambiguate_keyword_sanitize_fname,
    metadata.py Address.module_alias, protobuf's ToJsonName.  Definitions only. *)
-From GV Require Import Base.Str Gen.Kw.
+From GV Require Import Base.Str Gen.Kw Model.Case.
 
 Definition reserved (w : string) : bool := mem_str w RESERVED_NAMES.
 Definition is_kw (w : string) : bool := mem_str w KWLIST.
@@ -42,10 +42,13 @@ Definition chain_ok (p : string) : bool := forallb python_ok (split_on "."%char 
 
 (* ---- proto file names: api.py disambiguate_keyword_sanitize_fname on the base name ----
    [name] is the file's base name without extension, [visited] the base names already taken in the same
-   directory (same extension).  Dots become underscores; then one underscore is appended when the name is an
-   invalid module name or already taken, and again while the result is taken. *)
-Definition dots_to_us (s : string) : string := smap (fun c => if Ascii.eqb c "."%char then "_"%char else c) s.
+   directory (same extension).  Dots and dashes become underscores; then one underscore is appended when the name,
+   or its snake-case form (the module the types are written to), is an invalid module name, or when the name is
+   already taken, and again while the result is taken. *)
+Definition dots_to_us (s : string) : string :=
+  smap (fun c => if Ascii.eqb c "."%char || Ascii.eqb c "-"%char then "_"%char else c) s.
 Definition invalid_module (n : string) : bool := mem_str n (KWLIST ++ INVALID_MODULE_EXTRA).
+Definition module_invalid (n : string) : bool := invalid_module n || invalid_module (snake n).
 
 Fixpoint bump (fuel : nat) (n : string) (visited : list string) : option string :=
   match fuel with
@@ -60,7 +63,7 @@ Definition count_ge (k : nat) (visited : list string) : nat :=
   length (filter (fun v => Nat.leb k (String.length v)) visited).
 Definition sanitize_fname (name : string) (visited : list string) : option string :=
   let n := dots_to_us name in
-  if invalid_module n || mem_str n visited then bump (S (count_ge (S (String.length n)) visited)) n visited
+  if module_invalid n || mem_str n visited then bump (S (count_ge (S (String.length n)) visited)) n visited
   else Some n.
 
 (* ---- Address.module_alias: initials of the package components (version component skipped) + "_" + module ---- *)
